@@ -103,6 +103,129 @@ Example C11_example_nonvacuous :
   raised (pubs_run 1 ex_killed) = false.
 Proof. vm_compute. repeat split; reflexivity. Qed.
 
+(** ------------------------------------------------------------------
+    Tie of Registrars/Model.v to the source (Registrars/Tie.v): the hook implementations of
+    nextline/plugin/plugins/registrars/*.py are REGENERATED on every check as statement ASTs
+    (Gen/RegistrarsFuns.v, translate/registrars_funs.py); [Tie.run_class] interprets one of them on
+    the encoded state of its registrar, [Tie.call_hook] runs all implementations of a hook in
+    pluggy's call order computed from Gen/HookOrder.v, [Tie.run_event] goes through the regenerated
+    dispatch table of OnEvent.  Each theorem: for ALL model states and ALL events the interpreted
+    source yields exactly (the encoding of) the state and the publication list of the model. *)
+From NL Require Import Registrars.Syntax Gen.RegistrarsFuns Gen.HookOrder Registrars.Tie.
+Local Open Scope string_scope.
+
+(** one obligation per registrar: every hook it implements against the model's function *)
+Theorem C11_tie_TraceNumbersRegistrar :
+  (forall rn l, run_class rn "TraceNumbersRegistrar" "on_initialize_run" [] (load_tn l) = Some (load_tn [], [])) /\
+  (forall rn l r t pl, tied load_tn rn "TraceNumbersRegistrar" "on_start_trace" [("event", enc_event (StartTrace r t pl))] l (tn_start l t)) /\
+  (forall rn l r t, tied load_tn rn "TraceNumbersRegistrar" "on_end_trace" [("event", enc_event (EndTrace r t))] l (tn_end l t)) /\
+  (forall rn l a, tied load_tn rn "TraceNumbersRegistrar" "on_end_run" a l (tn_end_run l)).
+Proof. exact (conj tie_tn_init (conj tie_tn_start (conj tie_tn_end tie_tn_end_run))). Qed.
+
+Theorem C11_tie_TraceInfoRegistrar :
+  (forall rn m, run_class rn "TraceInfoRegistrar" "on_initialize_run" [] (load_ti m) = Some (load_ti [], [])) /\
+  (forall rn m r t pl, tied load_ti rn "TraceInfoRegistrar" "on_start_trace" [("event", enc_event (StartTrace r t pl))] m (ti_start rn m t pl)) /\
+  (forall rn m r t, tied load_ti rn "TraceInfoRegistrar" "on_end_trace" [("event", enc_event (EndTrace r t))] m (ti_end m t)) /\
+  (forall rn m a, tied load_ti rn "TraceInfoRegistrar" "on_end_run" a m (ti_end_run m)).
+Proof. exact (conj tie_ti_init (conj tie_ti_start (conj tie_ti_end tie_ti_end_run))). Qed.
+
+Theorem C11_tie_PromptInfoRegistrar :
+  (forall rn s, run_class rn "PromptInfoRegistrar" "on_initialize_run" [] (load_pi s) = Some (load_pi pi_empty, [])) /\
+  (forall rn s r t pl, tied load_pi rn "PromptInfoRegistrar" "on_start_trace" [("event", enc_event (StartTrace r t pl))] s (pi_start_trace rn s t)) /\
+  (forall rn s r t, tied load_pi rn "PromptInfoRegistrar" "on_end_trace" [("event", enc_event (EndTrace r t))] s (pi_end_trace s t)) /\
+  (forall rn s r t c fid info, tied load_pi rn "PromptInfoRegistrar" "on_start_trace_call" [("event", enc_event (StartTraceCall r t c fid info))] s (pi_start_call s t fid info)) /\
+  (forall rn s r t c, tied load_pi rn "PromptInfoRegistrar" "on_end_trace_call" [("event", enc_event (EndTraceCall r t c))] s (pi_end_call rn s t)) /\
+  (forall rn s r t c p txt, tied load_pi rn "PromptInfoRegistrar" "on_start_prompt" [("event", enc_event (StartPrompt r t c p txt))] s (pi_start_prompt rn s t p txt)) /\
+  (forall rn s r t c p cmd, tied load_pi rn "PromptInfoRegistrar" "on_end_prompt" [("event", enc_event (EndPrompt r t c p cmd))] s (pi_end_prompt s t p cmd)) /\
+  (forall rn s a, tied load_pi rn "PromptInfoRegistrar" "on_end_run" a s (pi_end_run s)).
+Proof.
+  exact (conj tie_pi_init (conj tie_pi_start_trace (conj tie_pi_end_trace (conj tie_pi_start_call
+        (conj tie_pi_end_call (conj tie_pi_start_prompt (conj tie_pi_end_prompt tie_pi_end_run))))))).
+Qed.
+
+Theorem C11_tie_PromptNoticeRegistrar :
+  (forall rn m, run_class rn "PromptNoticeRegistrar" "on_initialize_run" [] (load_pn m) = Some (load_pn [], [])) /\
+  (forall rn m r t c fid info, tied load_pn rn "PromptNoticeRegistrar" "on_start_trace_call" [("event", enc_event (StartTraceCall r t c fid info))] m (pn_start_call m t fid info)) /\
+  (forall rn m r t c, tied load_pn rn "PromptNoticeRegistrar" "on_end_trace_call" [("event", enc_event (EndTraceCall r t c))] m (pn_end_call m t)) /\
+  (forall rn m r t c p txt, tied load_pn rn "PromptNoticeRegistrar" "on_start_prompt" [("event", enc_event (StartPrompt r t c p txt))] m (pn_start_prompt rn m t p txt)) /\
+  (forall rn m a, tied load_pn rn "PromptNoticeRegistrar" "on_end_run" a m (pn_end_run m)).
+Proof. exact (conj tie_pn_init (conj tie_pn_start_call (conj tie_pn_end_call (conj tie_pn_start_prompt tie_pn_end_run)))). Qed.
+
+Theorem C11_tie_RunInfoRegistrar :
+  (forall rn s, run_class rn "RunInfoRegistrar" "on_initialize_run" [] (load_ri rn s) =
+                Some (load_ri rn (fst (ri_init rn)), map enc_pub (snd (ri_init rn)))) /\
+  (forall rn s, tied (load_ri rn) rn "RunInfoRegistrar" "on_start_run" (run_event_arg "OnStartRun") s (ri_start_run rn s)) /\
+  (forall rn s, tied (load_ri rn) rn "RunInfoRegistrar" "on_end_run" (run_event_arg "OnEndRun") s (ri_end_run rn s)).
+Proof. exact (conj tie_ri_init (conj tie_ri_start_run tie_ri_end_run)). Qed.
+
+Theorem C11_tie_StdoutRegistrar : forall rn r t txt,
+  run_class rn "StdoutRegistrar" "on_write_stdout" [("event", enc_event (WriteStdout r t txt))] [] =
+  Some ([], map enc_pub (so_write rn t txt)).
+Proof. exact tie_so_write. Qed.
+
+(** the registrars whose topics are outside the model (run_no, state_name, statement,
+    script_file_name): exactly one publication of the given value per call, no state *)
+Theorem C11_tie_other_registrars :
+  (forall rn, run_class rn "RunNoRegistrar" "on_initialize_run" [] [] = Some ([], [GPub (VStr "run_no") (VInt rn)])) /\
+  (forall rn v, run_class rn "StateNameRegistrar" "on_change_state" [("state_name", v)] [] = Some ([], [GPub (VStr "state_name") v])) /\
+  (forall rn v w, run_class rn "ScriptRegistrar" "on_change_script" [("script", v); ("filename", w)] [] =
+                  Some ([], [GPub (VStr "statement") v; GPub (VStr "script_file_name") w])).
+Proof. exact (conj tie_run_no (conj tie_state_name tie_script)). Qed.
+
+(** composed as a run calls them: the regenerated dispatch of OnEvent, then every implementation
+    of the hook in pluggy's call order (from Gen/HookOrder.v), equals the model's [on_event] *)
+Theorem C11_tie_on_event : forall rn s e,
+  run_event rn (loadR rn s) e = Some (loadR rn (fst (on_event rn s e)), map enc_pub (snd (on_event rn s e))).
+Proof. exact tie_on_event. Qed.
+
+Theorem C11_tie_on_initialize_run : forall rn s,
+  call_hook rn "on_initialize_run" [] (loadR rn s) =
+  Some (loadR rn (fst (on_initialize_run rn s)),
+        GPub (VStr "run_no") (VInt rn) :: map enc_pub (snd (on_initialize_run rn s))).
+Proof. exact tie_on_initialize_run. Qed.
+
+Theorem C11_tie_on_start_run : forall rn s,
+  call_hook rn "on_start_run" (run_event_arg "OnStartRun") (loadR rn s) =
+  Some (loadR rn (fst (on_start_run rn s)), map enc_pub (snd (on_start_run rn s))).
+Proof. exact tie_on_start_run. Qed.
+
+Theorem C11_tie_on_end_run : forall rn s,
+  call_hook rn "on_end_run" (run_event_arg "OnEndRun") (loadR rn s) =
+  Some (loadR rn (fst (on_end_run rn s)), map enc_pub (snd (on_end_run rn s))).
+Proof. exact tie_on_end_run. Qed.
+
+(** a whole run (any stream, cut anywhere), interpreted from the registrars as constructed: the
+    publications are 'run_no' followed by the encoding of the model's [pubs_run] ... *)
+Theorem C11_tie_whole_run : forall rn es,
+  run_whole rn es =
+  Some (loadR rn (fst (on_end_run rn (state_events rn es))),
+        GPub (VStr "run_no") (VInt rn) :: map enc_pub (pubs_run rn es)).
+Proof. exact tie_whole_run. Qed.
+
+(** ... so what the interpreted source sends on each topic is the encoding of the model's
+    [on_topic k (pubs_run rn es)], the sequence every theorem above speaks about *)
+Theorem C11_tie_whole_run_topics : forall rn es,
+  exists G ps, run_whole rn es = Some (G, ps) /\
+    forall k, g_on_topic k ps = map (option_map enc_value) (on_topic k (pubs_run rn es)).
+Proof. exact tie_whole_run_topics. Qed.
+
+(** the encoded state has exactly the classes and tracked attributes the translator found, and
+    the dispatch table is the one Registrars/Order.v ties to the model *)
+Theorem C11_tie_state_shape : forall rn s,
+  map (fun cs => (fst cs, map (fun ak => (fst ak, kind_of (snd ak))) (snd cs))) (loadR rn s) =
+  map (fun g => (g_name g, g_attrs g)) Gen.RegistrarsFuns.registrars.
+Proof. exact loadR_shape. Qed.
+
+Theorem C11_tie_dispatch : Gen.RegistrarsFuns.funs_dispatch = Gen.HookOrder.on_event_dispatch.
+Proof. exact dispatch_same. Qed.
+
+(** non-vacuity of the tie: the killed run of C11_example_nonvacuous, interpreted *)
+Example C11_tie_example :
+  option_map (fun Gp => g_on_topic TTraceInfo (snd Gp)) (run_whole 1 ex_killed) =
+  Some (map (option_map enc_value) (on_topic TTraceInfo (pubs_run 1 ex_killed))) /\
+  option_map (fun Gp => List.length (snd Gp)) (run_whole 1 ex_killed) = Some 32%nat.
+Proof. vm_compute. split; reflexivity. Qed.
+
 Print Assumptions C11_active_set.
 Print Assumptions C11_trace_info_once.
 Print Assumptions C11_notice_bijection.
@@ -110,3 +233,18 @@ Print Assumptions C11_prompt_open_close.
 Print Assumptions C11_closed_out_active_set.
 Print Assumptions C11_closed_out_prompt_topics.
 Print Assumptions C11_closed_out_subscribers_terminate.
+Print Assumptions C11_tie_TraceNumbersRegistrar.
+Print Assumptions C11_tie_TraceInfoRegistrar.
+Print Assumptions C11_tie_PromptInfoRegistrar.
+Print Assumptions C11_tie_PromptNoticeRegistrar.
+Print Assumptions C11_tie_RunInfoRegistrar.
+Print Assumptions C11_tie_StdoutRegistrar.
+Print Assumptions C11_tie_other_registrars.
+Print Assumptions C11_tie_on_event.
+Print Assumptions C11_tie_on_initialize_run.
+Print Assumptions C11_tie_on_start_run.
+Print Assumptions C11_tie_on_end_run.
+Print Assumptions C11_tie_whole_run.
+Print Assumptions C11_tie_whole_run_topics.
+Print Assumptions C11_tie_state_shape.
+Print Assumptions C11_tie_dispatch.
